@@ -165,6 +165,8 @@ class TimeSeam:
 		return self.monotonic()
 
 	def sleep(self, secs):
+		if secs < 0:
+			raise ValueError("sleep length must be non-negative")
 		ns = int(round(secs * 1e9))
 		sim = self._sim
 		t = sim.current
